@@ -107,6 +107,26 @@ Theorem c37_update_added_effective :
 Proof. exact update_added_reachable. Qed.
 Print Assumptions c37_update_added_effective.
 
+(** Update never loses a peer, on any reachable table: bucket unfolding only moves entries between
+    the last two buckets, MoveToFront permutes a bucket, and a full bucket rejects the newcomer
+    instead of evicting. *)
+Theorem c37_update_keeps_peers :
+  forall (size : Z) (local : peer_id) (ops : list op) (id : peer_id) (addr : N) (t : table) (p : peer),
+    (1 <= size)%Z -> length local = KB_ID_LEN ->
+    exec (new_table size local) ops = Some t ->
+    in_table t p -> in_table (fst (update t id addr)) p.
+Proof. exact update_keeps_reachable. Qed.
+Print Assumptions c37_update_keeps_peers.
+
+(** Remove(id) removes nothing but peers with that id. *)
+Theorem c37_remove_keeps_others :
+  forall (size : Z) (local : peer_id) (ops : list op) (id : peer_id) (t : table) (p : peer),
+    (1 <= size)%Z -> length local = KB_ID_LEN ->
+    exec (new_table size local) ops = Some t ->
+    in_table t p -> fst p <> id -> in_table (fst (remove t id)) p.
+Proof. exact remove_keeps_reachable. Qed.
+Print Assumptions c37_remove_keeps_others.
+
 (** Concurrent callers.  The theorems above are about sequential histories; the table is used
     by several goroutines, and its claim is that Update / Remove / NearestPeers are atomic with
     respect to each other because each runs under the one table lock.  That discipline is read from
